@@ -57,7 +57,8 @@ type Case struct {
 	Events  []Ev    `json:"events,omitempty"`
 	Raw     []RawOp `json:"raw,omitempty"`
 	Foreign bool    `json:"foreign,omitempty"`    // foreign entries planted: property monitors off, model comparison on
-	BadName bool    `json:"bad_name,omitempty"`   // file names outside the model: model comparison off
+	BadName bool    `json:"bad_name,omitempty"`   // some file name is not a single path component: the model says the Write fails at that file (BADNAME), the implementation's concrete errno is not compared
+	Clock0  int     `json:"clock0,omitempty"`     // version ids below this belong to earlier processes (pre-planted as @v<n>); the first Write of the case gets id clock0
 	Reader  bool    `json:"reader,omitempty"`     // run a concurrent reader goroutine
 	RelTgt  bool    `json:"rel_target,omitempty"` // Options.Target is given relative to the working directory (= sandbox root)
 }
@@ -394,10 +395,21 @@ func filesArg(order []string, files map[string][]byte) string {
 		rest = append(rest, n)
 	}
 	sort.Strings(rest)
+	// a Write stops at the first invalid name: it is the next one after those written
+	for _, n := range rest {
+		if !validName(n) {
+			add(n)
+		}
+	}
 	for _, n := range rest {
 		add(n)
 	}
 	return strings.Join(parts, ",")
+}
+
+// validName mirrors Kit.Dir.validName: one path component.
+func validName(n string) bool {
+	return n != "" && n != "." && n != ".." && !strings.ContainsAny(n, "/\x00")
 }
 
 func parseAnswer(s string) map[string]string {
@@ -426,6 +438,9 @@ func (w *world) compareObs(drv *lib.Drv, line, implErr, what string, observe boo
 		return
 	}
 	m := parseAnswer(ans)
+	if m["err"] == "BADNAME" && implErr != "nil" {
+		implErr = "BADNAME" // the model does not say which errno an invalid name produces
+	}
 	if !observe {
 		if m["err"] != implErr {
 			w.res.Disagree("C18/"+what+"/err", map[string]any{"case": w.c, "event": w.evIdx, "line": line}, "err="+m["err"], "err="+implErr)
@@ -471,6 +486,15 @@ func (w *world) abs(p string) string {
 			comps[i] = w.c.TName
 		case "@T.new":
 			comps[i] = w.c.TName + ".new"
+		default:
+			// @v<n>: version directory of an earlier process (small stamp n+1)
+			if strings.HasPrefix(c, "@v") {
+				if n, err := strconv.Atoi(c[2:]); err == nil {
+					name := fmt.Sprintf("%d-%s", n+1, w.c.TName)
+					w.verIdx[name] = n
+					comps[i] = name
+				}
+			}
 		}
 	}
 	return filepath.Join(append([]string{w.root}, comps...)...)
@@ -557,6 +581,7 @@ func runCase(c Case, drv *lib.Drv, res *lib.Result, work string, n int) {
 	}
 	defer os.RemoveAll(w.root)
 	res.Hit("family." + c.Family)
+	w.shift = c.Clock0
 	if c.RelTgt {
 		if cwd, err := os.Getwd(); err == nil {
 			defer os.Chdir(cwd)
@@ -567,7 +592,7 @@ func runCase(c Case, drv *lib.Drv, res *lib.Result, work string, n int) {
 		}
 	}
 	if drv != nil {
-		if _, err := drv.Ask("reset base=" + w.canonComps(w.baseRel)); err != nil {
+		if _, err := drv.Ask(fmt.Sprintf("reset base=%s clock=%d", w.canonComps(w.baseRel), c.Clock0)); err != nil {
 			res.Disagree("C18/driver", c, err.Error(), "")
 			return
 		}
@@ -675,9 +700,7 @@ func (w *world) afterCall(drv *lib.Drv, i int, files map[string][]byte, cr callR
 			*nontrivial = true
 		}
 		w.d, w.hasPrev, w.pure = nil, false, false
-		if !c.BadName {
-			w.compareObs(drv, fmt.Sprintf("crash k=%d files=%s", cr.opsDone, filesArg(cr.written, files)), "nil", "crash", observe)
-		}
+		w.compareObs(drv, fmt.Sprintf("crash k=%d files=%s", cr.opsDone, filesArg(cr.written, files)), "nil", "crash", observe)
 		if observe {
 			w.monitorReader(fmt.Sprintf("after crash of write #%d (%d fs operations done)", i, cr.opsDone))
 		}
@@ -686,9 +709,7 @@ func (w *world) afterCall(drv *lib.Drv, i int, files map[string][]byte, cr callR
 		if cr.errName == "nil" {
 			w.hasPrev = true
 		}
-		if !c.BadName {
-			w.compareObs(drv, "write files="+filesArg(cr.written, files), cr.errName, "write", observe)
-		}
+		w.compareObs(drv, "write files="+filesArg(cr.written, files), cr.errName, "write", observe)
 		if observe {
 			w.monitorAfterWrite(i, files, cr)
 		} else if cr.errName != "nil" && !c.Foreign && !c.BadName {
